@@ -24,6 +24,7 @@ type Cursor struct {
 	Width   *ssa.Call // the invoke of width() inside G
 	Rest    *ssa.Call // G takes the input from a helper of the reader that returns nil or data[offset:]: that call
 	Why     string
+	ctors   map[*ssa.Function]int
 }
 
 func (p *Prog) Cursor() *Cursor {
@@ -947,4 +948,155 @@ func (pr *Prover) nilCondIsNil(cond ssa.Value, truth bool, k string) bool {
 		return x.Op == token.EQL && truth || x.Op == token.NEQ && !truth
 	}
 	return false
+}
+
+// readerCtor: fn is a constructor of the sequential reader — it allocates one reader, stores one of its parameters
+// as the data (offset and error left at, or set to, zero), does nothing else, and returns that reader on every
+// path.  Returns the index of the data parameter, or -1.  `newBuffer(data)` stands for `&buffer{data: data}`
+// wherever a reader created in a function is looked for.
+func (cur *Cursor) readerCtor(fn *ssa.Function) int {
+	if cur == nil || cur.G == nil || fn == nil || len(fn.Blocks) == 0 || fn.Signature.Results().Len() != 1 {
+		return -1
+	}
+	pt, ok := fn.Signature.Results().At(0).Type().Underlying().(*types.Pointer)
+	if !ok || !types.Identical(pt.Elem(), cur.T) {
+		return -1
+	}
+	if cur.ctors == nil {
+		cur.ctors = map[*ssa.Function]int{}
+	}
+	if k, ok := cur.ctors[fn]; ok {
+		return k
+	}
+	cur.ctors[fn] = -1
+	var al *ssa.Alloc
+	dataPrm := -1
+	for _, b := range fn.Blocks {
+		for _, ins := range b.Instrs {
+			switch x := ins.(type) {
+			case *ssa.Alloc:
+				if al != nil || !types.Identical(x.Type(), fn.Signature.Results().At(0).Type()) {
+					return -1
+				}
+				al = x
+			case *ssa.FieldAddr:
+				if x.X != ssa.Value(al) {
+					return -1
+				}
+			case *ssa.Store:
+				fa, ok := x.Addr.(*ssa.FieldAddr)
+				if !ok || al == nil || fa.X != ssa.Value(al) {
+					return -1
+				}
+				switch fa.Field {
+				case cur.D:
+					prm, ok := x.Val.(*ssa.Parameter)
+					if !ok || dataPrm >= 0 {
+						return -1
+					}
+					dataPrm = paramIndex(fn, prm)
+				case cur.I:
+					if k, ok := constInt(x.Val); !ok || k != 0 {
+						return -1
+					}
+				case cur.E:
+					if !isNilConst(x.Val) {
+						return -1
+					}
+				default:
+					switch x.Val.(type) {
+					case *ssa.Parameter, *ssa.Const:
+					default:
+						return -1
+					}
+				}
+			case *ssa.Return:
+				if len(x.Results) != 1 || x.Results[0] != ssa.Value(al) {
+					return -1
+				}
+			case *ssa.DebugRef, *ssa.Jump:
+			default:
+				return -1
+			}
+		}
+	}
+	if al == nil || dataPrm < 0 {
+		return -1
+	}
+	cur.ctors[fn] = dataPrm
+	return dataPrm
+}
+
+// newReader: v is a reader created here — an allocation of the reader type or a call of a reader constructor.
+// data is what it reads from (nil for an allocation: see the stores into its data field).
+func (cur *Cursor) newReader(v ssa.Value) (data ssa.Value, ok bool) {
+	switch x := v.(type) {
+	case *ssa.Alloc:
+		if pt, isP := x.Type().Underlying().(*types.Pointer); isP && cur.T != nil && types.Identical(pt.Elem(), cur.T) {
+			return nil, true
+		}
+	case *ssa.Call:
+		if sc := x.Call.StaticCallee(); sc != nil {
+			if k := cur.readerCtor(sc); k >= 0 && k < len(x.Call.Args) {
+				return x.Call.Args[k], true
+			}
+		}
+	}
+	return nil, false
+}
+
+// setterLeavesErrorSet: fn is an error-setter helper of the reader (errSetterParam) after which the reader's error
+// is non-nil whenever the argument is: every path to a return stores the parameter, or runs behind a test that
+// found the error field (of the same reader, not written in the helper otherwise) non-nil.  Returns the parameter
+// index, else -1.
+func (cur *Cursor) setterLeavesErrorSet(fn *ssa.Function) int {
+	k := cur.errSetterParam(fn)
+	if k < 0 {
+		return -1
+	}
+	done := map[*ssa.BasicBlock]bool{}
+	type edge struct{ from, to *ssa.BasicBlock }
+	doneEdge := map[edge]bool{}
+	for _, b := range fn.Blocks {
+		for _, ins := range b.Instrs {
+			if st, ok := ins.(*ssa.Store); ok {
+				if _, isE := cur.isField(st.Addr, cur.E); isE {
+					done[b] = true
+				}
+			}
+		}
+		if iff, ok := terminator(b).(*ssa.If); ok {
+			for side, truth := range []bool{true, false} {
+				if v, isNil, ok := nilTestOf(iff.Cond, truth); ok && !isNil {
+					if ld, isLd := v.(*ssa.UnOp); isLd && ld.Op == token.MUL {
+						if base, isE := cur.isField(ld.X, cur.E); isE && base == ssa.Value(fn.Params[0]) {
+							doneEdge[edge{b, b.Succs[side]}] = true
+						}
+					}
+				}
+			}
+		}
+	}
+	ok := true
+	seen := map[*ssa.BasicBlock]bool{}
+	var dfs func(b *ssa.BasicBlock)
+	dfs = func(b *ssa.BasicBlock) {
+		if seen[b] || done[b] {
+			return
+		}
+		seen[b] = true
+		if _, isRet := terminator(b).(*ssa.Return); isRet {
+			ok = false
+		}
+		for _, s := range b.Succs {
+			if !doneEdge[edge{b, s}] {
+				dfs(s)
+			}
+		}
+	}
+	dfs(fn.Blocks[0])
+	if !ok {
+		return -1
+	}
+	return k
 }
